@@ -30,7 +30,7 @@ import (
 )
 
 type c12case struct {
-	fam   string // family: bytes | shape-op | shape-syscall | native | evm
+	fam   string // family: bytes | shape-op | shape-syscall | operands-op | cyclic-arg | amplify | native | evm | deserialize-blob
 	desc  string
 	code  []byte // NeoVM script suffix (nil for evm)
 	pre   []byte // shared prefix (value shape), not copied per case
@@ -779,7 +779,7 @@ func TestVerif_C12(t *testing.T) {
 	}
 	r := vh.Start(t, "C12", "nocrash")
 	defer r.Finish()
-	r.Rule("transactions handed to the real PreExecuteContract and (for the non-byte families) to real block execution: (a) every NeoVM byte program of length<=2 (thorough: + every 2-byte prefix followed by 20 sharp bytes); (b) ~30 value shapes (boundary ints, big byte arrays, deep nesting, arrays/structs/maps containing themselves in every slot, mutual and shared references) duplicated 1–3 times, followed by every opcode and every registered syscall; (c) every method of every registered native contract (read from native.Contracts at run time) with structured argument lists over an 8-symbol field alphabet, as struct and as array; (d) every EVM opcode on 4 pre-filled stacks as contract-creation code. Cases run in worker subprocesses; panics, worker deaths and stalls are attributed to the case; distinct = (family, outcome) classes")
+	r.Rule("transactions handed to the real PreExecuteContract and (for the non-byte families) to real block execution: (a) every NeoVM byte program of length<=2 (thorough: + every 2-byte prefix followed by 20 sharp bytes); (b) ~30 value shapes (boundary ints, big byte arrays, deep nesting, arrays/structs/maps containing themselves in every slot, mutual and shared references) duplicated 1–3 times, followed by every opcode and every registered syscall; (c) every method of every registered native contract (read from native.Contracts at run time) with structured argument lists over an 8-symbol field alphabet, as struct and as array; (d) every EVM opcode on 4 pre-filled stacks as contract-creation code; (e) deserialize-blob: crafted byte strings pushed and handed to System.Runtime.Deserialize (then Serialize of a copy and Notify of the result): 11 type tags (the 6 of the serialization format + 5 outside it) x 27 count/length prefixes (18 canonical var-uints at the width boundaries 0xfc/0xfd/0xffff/0x10000/2^32, the format limits 1024/1025 items and 2^20 bytes, 2^24, 2^31, 2^41, 2^63-1, 2^63, 2^64-1; 5 padded encodings; 4 cut-off ones) x every tail of 0..1 bytes over a 7-symbol item-byte alphabet and every 2-byte tail over its 4-symbol core, the same headers (tail 0..1 bytes) nested as the item of an array, of a struct, as key and as value of a map, plus truthful blobs (announced length/count really present) at the limits (byte arrays/integers up to just under the 1 MiB transaction limit, arrays/structs/maps of 0..2048 items); all pre-executed, those with the shortest tails also executed in a block. Cases run in worker subprocesses; panics, worker deaths and stalls are attributed to the case; distinct = (family, outcome) classes")
 	r.Assume("a Go panic during block execution terminates the node (nothing on that path recovers); the wasm JIT is a stub (wasm contracts excluded)")
 	cases := c12cases(r)
 	total := len(cases)
@@ -859,5 +859,6 @@ func TestVerif_C12(t *testing.T) {
 	}
 	r.Sample(map[string]interface{}{"family": "shape-syscall", "example": "self-array-slot1 x1 System.Runtime.Serialize"})
 	r.Sample(map[string]interface{}{"family": "native", "example": "ONT.transfer with args [addr0, addr1] as struct"})
+	r.Sample(map[string]interface{}{"family": "deserialize-blob", "example": "top/struct count<2^63 canonical 0x20000000000 tail=0001: blob 81 ff 0000000000020000 00 01 -> PUSHBYTES, System.Runtime.Deserialize, DUP, Serialize, DROP, Notify"})
 	var _ = ethcom.Address{}
 }
